@@ -14,7 +14,7 @@ from collections import Counter
 import numpy as np
 
 from ..core import choice, draw_cfg, maybe_long
-from ..problems import FAMILIES, build_problem, draw_problem_spec
+from ..problems import FAMILIES, QUANTISED, build_problem, draw_problem_spec
 from ..world import Act, Store
 
 ID = "C03"
@@ -50,7 +50,7 @@ ASSUMPTIONS = ["objective values are finite or +inf; runs in which a NaN value a
 
 
 def gen(rng, tier, index):
-    spec = draw_problem_spec(rng, list(FAMILIES), nmax=10)
+    spec = draw_problem_spec(rng, list(FAMILIES) + list(QUANTISED), nmax=10)
     jac_modes = ["callable"] * 7 + ["2-point", "3-point", None]
     cfg = draw_cfg(rng, jac_modes=jac_modes, allow_scaler=True)
     if cfg["jac"] != "callable" and spec["box"] == "degenerate":
@@ -63,8 +63,8 @@ def gen(rng, tier, index):
         cfg["ftol_linesearch"] = float(choice(rng, [1e-4, 1e-3, 0.3]))
         cfg["gtol_linesearch"] = float(choice(rng, [0.4, 0.9, 0.99]))
         cfg["xtol_linesearch"] = float(choice(rng, [1e-10, 0.1, 0.5]))
-    if rng.random() < 0.2:
-        cfg["max_steplength"] = float(choice(rng, [0.5, 2.0, 1e3]))
+    if rng.random() < 0.3:
+        cfg["max_steplength"] = float(choice(rng, [0.02, 0.1, 0.5, 2.0, 1e3]))
     maybe_long(rng, spec, cfg)
     maxls_alt = int(choice(rng, [1, 2, 3, 5, 20]))
     pre = bool(rng.random() < 0.25) and cfg.get("scaler") is None
@@ -90,9 +90,17 @@ def judge(act, f_start, x_start, add, tag):
     if act.result is None:
         return None
     seq = [("start", f_start)]
+    xs = [np.asarray(x_start, dtype=float)]
     for rec in act.states:
         seq.append(("state%d" % rec["snap"]["nit"], rec["snap"]["fun"]))
+        xs.append(rec["snap"]["x"])
     seq.append(("result", float(act.result.fun)))
+    xs.append(np.asarray(act.result.x, dtype=float))
+    # a step is only taken to a strictly better point: equal objective value => same iterate
+    for i in range(len(seq) - 1):
+        if _bits(seq[i][1]) == _bits(seq[i + 1][1]) and xs[i].shape == xs[i + 1].shape and xs[i].tobytes() != xs[i + 1].tobytes():
+            add("moved_without_decrease", {"tag": tag, "from": seq[i][0], "to": seq[i + 1][0], "f": seq[i][1]})
+            break
     vals = [v for _, v in seq]
     if any(np.isnan(v) for v in vals):
         return "nan"
